@@ -43,6 +43,6 @@ theorem availability (o : Op) (c : Cat) (v : ValCat) :
   unfold required at h
   cases o <;> cases c <;> cases v <;> simp_all [Op.appliesTo, Op.needsCopy]
 
-example : requiredCells.length = 418 := by decide +kernel
+example : requiredCells.length = 600 := by decide +kernel
 
 end Cntgs.C20
